@@ -372,6 +372,20 @@ func (ch c13) runCase(c *core.Ctx, env *hs.Env, k c13case, rng *core.Rng, idx in
 		}
 	}
 	// after the cycle: stray COPY messages are ignored without reply
+	if idx%17 == 3 {
+		// many stray COPY messages in a row (a client that keeps streaming after the abort)
+		n := []int{65, 100, 300, 1000}[(idx/17)%4]
+		var burst []byte
+		for j := 0; j < n; j++ {
+			burst = append(burst, pg.CopyData([]byte("late row\n"))...)
+		}
+		burst = append(burst, pg.CopyDone()...)
+		c.Count("stray_copy_messages", int64(n+1))
+		c.Count("stray_bursts", 1)
+		if !step(fmt.Sprintf("%d stray CopyData + CopyDone", n), burst, "") {
+			return
+		}
+	}
 	for _, s := range k.Strays {
 		var m []byte
 		switch s {
